@@ -156,6 +156,14 @@ class BoundEval:
                 return {'0'}
             if cn in ('np.ones', 'numpy.ones'):
                 return {'1'}
+            if cn in ('np.full', 'numpy.full') and len(e.args) >= 2:
+                return self.ev(e.args[1], seen)
+            if cn in ('np.full_like', 'numpy.full_like') and len(e.args) >= 2:
+                return self.ev(e.args[1], seen)
+            if cn in ('np.zeros_like', 'numpy.zeros_like'):
+                return {'0'}
+            if cn in ('np.ones_like', 'numpy.ones_like'):
+                return {'1'}
             if cn in ('np.array', 'np.concatenate', 'np.hstack', 'numpy.concatenate', 'numpy.hstack'):
                 return self.ev(e.args[0], seen)
         if isinstance(e, ast.Subscript):
